@@ -63,7 +63,7 @@ def reader_line_checks(rep, M, rule, site, label, Te, Tm, mode_name, universal, 
     checks = [('a new field (_single)', single, rest), ('a new field (_multi)', multi, rest),
               ('a paragraph separator under whitespace-separates-paragraphs=False', M.L('_blank_line_no_whitespace'), rest),
               ('a PGP armor line', M.L('_gpgre'), rest),
-              ('a comment', M.pat(r'#(?s:.*)'), raw)]
+              ('a comment', M.comment_lang(), raw)]
     if default_blank_exempt:
         checks.append(('a paragraph separator under the default setting although it is not blank',
                        M.L('_blank_line_whitespace'), rest.minus(blankD)))
